@@ -80,9 +80,14 @@ def starts(name, prefix_s):
     return simp(match_at(mk_str(name), prefix_s, 0))
 
 
-def job_history(ctx, jr, seqs):
+def job_history(ctx, jr, seqs, depths=(None,)):
+    """depths=(None,): histories from an arbitrary variable map and an empty scope stack.
+    depths=(0, 1, 2): ONE operation from an arbitrary variable map and an arbitrary scope stack of that depth (step lemma); the
+    stack after the operation is compared entry by entry, so that "only the top is touched" is decided as well."""
     jr.bounds = dict(names=NAMES, values=VALS, sequences=[''.join(s) for s in seqs][:40], steps=len(seqs[0]), copy_lists='0..2 names, possibly undefined or repeated')
-    for seq in seqs:
+    if depths != (None,): jr.bounds.update(initial_scope_stack='arbitrary saved maps, depth %s' % (depths,), claim='one-operation lemma from an arbitrary state; a history is its iteration (DESIGN.md 8.9)')
+    SVT = 'types::runtime::StateValue'; SV_LIST, SV_ANY = ctx.types.enums[SVT].index('List'), ctx.types.enums[SVT].index('Any')
+    for seq, depth in [(q_, d_) for q_ in seqs for d_ in depths]:
         e = ctx.engine(unwind=16); e.int_digits = 2
         e.hooks['utils::state::put_handle'] = hook_put_handle
         e.hooks['std::sync::atomic::Atomic::<bool>::load'] = lambda eng, st1, a, c: False
@@ -91,6 +96,16 @@ def job_history(ctx, jr, seqs):
         d0 = [e.fresh_bool('def%d' % k) for k in range(len(NAMES))]; v0 = [e.fresh_int('val%d' % k, 0, len(VALS) - 1) for k in range(len(NAMES))]
         variables = M([(d0[k], mk_str(NAMES[k]), choose(v0[k], VALS)) for k in range(len(NAMES))])
         spec = Spec(d0, [choose(v0[k], VALS) for k in range(len(NAMES))])
+        state0 = M([])
+        if depth is not None:
+            saved = []
+            for lv in range(depth):
+                sd = [e.fresh_bool('saved%d.def%d' % (lv, k)) for k in range(len(NAMES))]; svv = [e.fresh_int('saved%d.val%d' % (lv, k), 0, len(VALS) - 1) for k in range(len(NAMES))]
+                spec.stack.append((list(sd), [choose(svv[k], VALS) for k in range(len(NAMES))], [False] * len(NAMES)))
+                saved.append(E(SVT, SV_ANY, {SV_ANY: [e.alloc(st, M([(sd[k], mk_str(NAMES[k]), choose(svv[k], VALS)) for k in range(len(NAMES))]))]}))
+            key_present = True if depth > 0 else e.fresh_bool('scope_stack.key_present')      # an empty stack: never pushed, or pushed and popped
+            state0 = M([(key_present, mk_str('scope_stack'), E(SVT, SV_LIST, {SV_LIST: [V(depth, saved)]}))])
+        spec_stack0 = list(spec.stack)
         instrs = []; desc = []; expect_out = []
         for k, op in enumerate(seq):
             cmd, pat, has_out = OPS[op]
@@ -154,12 +169,31 @@ def job_history(ctx, jr, seqs):
                     spec.loose[q] = simp(zand(spec.loose[q], znot(c)))
             if op == 'L': expect_out.append((k, list(spec.d)))
         commands = registry(e, st)
-        context = T([variables, M([]), commands], 'types::runtime::Context')
+        context = T([variables, state0, commands], 'types::runtime::Context')
         env = some(T([Opaque('out'), Opaque('err'), e.alloc(st, False)], 'types::env::Env'))
         rs, rv = e.run('core', 'runner::run', [V(len(instrs), instrs), context, env], st)
         jr.symex_time += time.time() - t0
         if rs is None: raise Abort('run never returns')
         checks = [('the run succeeds', zeq(rv.d, 0))]
+        if 0 in rv.p and depth is not None:
+            # the scope stack after the operation, entry by entry
+            sf, ssub, _ = map_lookup(e, rs, rv.p[0][0].f[1], mk_str('scope_stack'))
+            lst = ssub.p[SV_LIST][0] if isinstance(ssub, E) and SV_LIST in ssub.p else V(0, [])
+            if spec.stack: checks.append(('the scope stack exists', zand(sf, zeq(ssub.d, SV_LIST)) if isinstance(ssub, E) else False))
+            checks.append(('depth of the scope stack', zimp(sf, zeq(lst.len, len(spec.stack)))))
+            for lv, (sd, sv_, sl) in enumerate(spec.stack):
+                if lv >= len(lst.it): checks.append(('saved map %d exists' % lv, False)); continue
+                item = lst.it[lv]
+                mp = e.deref(rs, item.p[SV_ANY][0]) if isinstance(item, E) and SV_ANY in item.p else None
+                if not isinstance(mp, M): checks.append(('saved map %d is a map' % lv, False)); continue
+                cnt = 0
+                for p_, k_, v_ in mp.ents: cnt = cnt + zite(p_, 1, 0)
+                exp = 0
+                for q in range(len(NAMES)):
+                    f_, v_, _ = map_lookup(e, rs, mp, mk_str(NAMES[q]))
+                    checks.append(('saved map %d: %s' % (lv, NAMES[q]), zimp(znot(sl[q]), zand(zeq(f_, sd[q]), zimp(sd[q], str_eq(v_, sv_[q]) if v_ is not POISON else False)))))
+                    exp = exp + zite(sd[q], 1, 0)
+                checks.append(('saved map %d holds nothing else' % lv, zimp(znot(zor(*sl)), zeq(cnt, exp))))
         if 0 in rv.p:
             fin = rv.p[0][0].f[0]
             for q, name in enumerate(NAMES):
@@ -176,7 +210,7 @@ def job_history(ctx, jr, seqs):
             if expect_out:
                 hf, hsub, _ = map_lookup(e, rs, state, mk_str('handles'))
                 checks.append(('get_all_var_names stores a handle', hf))
-        for msg, c in checks: e.obligations.append(Obligation(rs.g, c, 'C11 %s: %s' % (''.join(seq), msg), 'assert', 'oracle'))
+        for msg, c in checks: e.obligations.append(Obligation(rs.g, c, 'C11 %s%s: %s' % (''.join(seq), '' if depth is None else ' from stack depth %d' % depth, msg), 'assert', 'oracle'))
 
         def extract(m, o=None):
             lines = []
@@ -191,7 +225,15 @@ def job_history(ctx, jr, seqs):
                 o_ = solve.model_int(m, oi) if has_out else 0
                 lines.append(dict(out=NAMES[o_ - 1] if o_ else None, cmd=cmd, args=a))
             init = {NAMES[k]: VALS[solve.model_int(m, v0[k])] for k in range(len(NAMES)) if solve.model_bool(m, d0[k])}
-            return dict(kind='c11', ops=lines, vars=init)
+            d_ = dict(kind='c11', ops=lines, vars=init)
+            if depth:
+                # the arbitrary stack is rebuilt natively by pushes from the saved maps (set_by_name / unset_all_vars / push)
+                pre = []
+                for lv in range(depth):
+                    sd_, sv__, _ = spec_stack0[lv]
+                    pre.append({NAMES[q]: solve.model_str(m, sv__[q]) for q in range(len(NAMES)) if solve.model_bool(m, sd_[q])})
+                d_['stack'] = pre
+            return d_
         res = discharge_known(e, jr, PID, {}, extract)
         witness(jr, e, 'sequence %s' % ''.join(seq), rs.g, extract)
         H.finish_job(jr, e, res)
@@ -232,11 +274,21 @@ def py_model(v):
 
 def replayer(v):
     def q(s): return '"' + s + '"'
-    lines = []
-    for op in v['ops']:
+    lines = []; pre_ops = []
+    for saved in v.get('stack', []):
+        pre_ops.append(dict(out=None, cmd='unset_all_vars', args=[]))
+        for k_, x_ in saved.items(): pre_ops.append(dict(out=None, cmd='set_by_name', args=[k_, x_]))
+        pre_ops.append(dict(out=None, cmd='scope_push_stack', args=[]))
+    if v.get('stack'):
+        pre_ops.append(dict(out=None, cmd='unset_all_vars', args=[]))
+        for k_, x_ in v['vars'].items(): pre_ops.append(dict(out=None, cmd='set_by_name', args=[k_, x_]))
+    # afterwards pop as many levels as were built: the final variables then reflect what is left at the bottom of the stack
+    allops = pre_ops + v['ops'] + [dict(out=None, cmd='scope_pop_stack', args=[]) for _ in v.get('stack', [])]
+    for op in allops:
         l = ((op['out'] + ' = ') if op['out'] else '') + op['cmd'] + ''.join(' ' + q(a) for a in op['args'])
         lines.append(l)
-    out = H.replay(dict(mode='sdk', script='\n'.join(lines), vars=v['vars'])); v['native'] = out
+    out = H.replay(dict(mode='sdk', script='\n'.join(lines), vars={} if v.get('stack') else v['vars'])); v['native'] = out
+    v = dict(v, ops=allops, vars={} if v.get('stack') else v['vars'])
     if out.get('panic'): return (True, 'native panic')
     if not out.get('ok'): return (True, 'native run failed: %r' % (out.get('error'),))
     exp, loose = py_model(v); v['spec'] = exp
@@ -261,7 +313,10 @@ def main(tier, seed):
     groups = [seqs[i::12] for i in range(12)]
     for gi, g in enumerate(groups):
         if g: chk.job(job_history, 'histories/%d' % gi, seqs=g)
-    chk.bounds = dict(names=NAMES, values=VALS, history_length='<= %d' % k, op_kind_sequences=len(seqs), per_sequence='all argument / output-variable choices and all initial maps symbolic')
+    allops = sorted(OPS)
+    for gi in range(5):
+        chk.job(job_history, 'step/%s' % ''.join(allops[gi::5]), seqs=[(o,) for o in allops[gi::5]], depths=(0, 1, 2))
+    chk.bounds = dict(step_lemmas='every operation kind from an arbitrary variable map and an arbitrary scope stack of depth 0, 1, 2 (saved maps symbolic); the stack afterwards compared entry by entry', names=NAMES, values=VALS, history_length='<= %d' % k, op_kind_sequences=len(seqs), per_sequence='all argument / output-variable choices and all initial maps symbolic')
     chk.assumptions = ['op kinds are case-split (12 fixed + seeded random sequences); arguments, outputs and the initial variable map are symbolic',
                        'put_handle: the random 20-character key is an arbitrary key assumed not to be live', 'unset (script-implemented) is represented by its body set_by_name <name>',
                        'HashMap iteration in slot order']
